@@ -68,7 +68,7 @@ Launch(pk, pv) ==
            /\ cache' = IF pk = "" THEN want ELSE NoCache
         \/ /\ "Dev_StaleAfterHeldMutation" \in Deviations
            /\ pk = "" /\ cache # NoCache /\ cache # want
-           /\ res' = [child |-> cache, back |-> TRUE, dev |-> "Dev_StaleAfterHeldMutation"]
+           /\ res' = [child |-> cache, back |-> FALSE, dev |-> "Dev_StaleAfterHeldMutation"]
            /\ cache' = cache
 
 Init == /\ val = [k \in Keys |-> IF k = "P" THEN 0 ELSE Unset] /\ cache = NoCache /\ held = FALSE /\ qrule = TRUE
